@@ -10,6 +10,9 @@ mkdir -p $S; exec 9>$S/.lock; flock 9
 rm -rf $S/repo; mkdir -p $S/repo
 git -C /repo archive HEAD | tar -x -C $S/repo
 cd $S/repo && git init -q . 2>/dev/null
+# extracted files carry the commit's mtime: without this, cargo would take the library built
+# from the previous (patched) copy for fresh
+find src tests -name '*.rs' -exec touch {} +
 export CARGO_TARGET_DIR=$S/target CARGO_NET_OFFLINE=true
 cp "$D" tests/seeded_demo.rs
 cargo test --offline --test seeded_demo >$S/demo_clean.log 2>&1; clean=$?
